@@ -105,6 +105,22 @@ func genNames(g *G, quick int) {
 		"xn--.com", "xn--a.com", "a b.com", "a\tb.com", "a b.com", "a\rb.example", "-.com", "a.-", "a.b-", "a.-b", "0.0.0.0", "123", "1a", "a1"} {
 		emitName(g, s)
 	}
+	// as many labels as fit: 127 one-byte labels are 253 bytes (the most a name can have); around it
+	for _, n := range []int{64, 125, 126, 127, 128, 129} {
+		for _, lab := range []string{"a", "1", "_", "-", "я"} {
+			name := strings.Repeat(lab+".", n-1) + "a"
+			emitName(g, name)
+			emitName(g, name+".")
+			emitName(g, "_s."+name[2:])
+		}
+		emitName(g, strings.Repeat("a.", n-2)+"bc.d")
+	}
+	// an ACE label in every position of a short name
+	for _, ace := range []string{"xn--0", "xn--a-b", "xn--abc-", "xn--e1afmkfd", "XN--E1AFMKFD", "xn--", "xn---"} {
+		for _, shape := range []string{"%s", "%s.com", "www.%s", "www.%s.com", "a.b.%s.c", "_srv.%s.com", "%s.%s"} {
+			emitName(g, strings.ReplaceAll(shape, "%s", ace))
+		}
+	}
 	// random perturbations
 	alpha := []string{"a", "z", "A", "0", "9", "-", "_", ".", "é", "\xff", " ", "xn--", "1", "b"}
 	for i := 0; i < quick; i++ {
